@@ -3,7 +3,9 @@ package c09
 // The two real worlds behind the `world` interface.
 
 import (
+	"bytes"
 	"context"
+	gocodec "github.com/ugorji/go/codec"
 	"reflect"
 	"sync"
 	"testing/synctest"
@@ -137,6 +139,7 @@ type monWorld struct {
 	cancel func()
 	h      host.Host
 	mon    *pubsubmon.Monitor
+	psub   *pubsub.PubSub
 	store  *metrics.Store   // the monitor's private store (key only)
 	chk    *metrics.Checker // the monitor's private checker (key only)
 	mu     sync.Mutex
@@ -173,6 +176,7 @@ func newMonWorld(c wcfg, env *bubbleEnv) *monWorld {
 		panic("harness: pubsubmon.New: " + err.Error())
 	}
 	w.mon = mon
+	w.psub = psub
 	mon.SetClient(nil) // starts the subscription reader and the Watch loop
 	if v, ok := private(mon, "metrics"); ok {
 		w.store, _ = v.Interface().(*metrics.Store)
@@ -185,6 +189,22 @@ func newMonWorld(c wcfg, env *bubbleEnv) *monWorld {
 }
 
 func (w *monWorld) arrive(m *api.Metric) {
+	if w.cfg.Pubsub {
+		// the wire form pubsubmon itself publishes (msgpack), published on the
+		// monitor's topic through this host's own pubsub: it reaches the
+		// monitor through its subscription like a message of any peer. Any
+		// validity flag and expiry can arrive this way (PublishMetric's
+		// refusal to send invalid metrics binds only well-behaved senders).
+		var b bytes.Buffer
+		if err := gocodec.NewEncoder(&b, &gocodec.MsgpackHandle{}).Encode(m); err != nil {
+			panic("harness: encode: " + err.Error())
+		}
+		if err := w.psub.Publish(pubsubmon.PubsubTopic, b.Bytes()); err != nil {
+			panic("harness: publish: " + err.Error())
+		}
+		synctest.Wait()
+		return
+	}
 	if err := w.mon.LogMetric(w.ctx, m); err != nil {
 		panic("harness: LogMetric: " + err.Error())
 	}
